@@ -42,7 +42,7 @@ type E2CloseResult struct {
 	Paused         bool
 	ClosedTwice    bool
 	DirBroken      bool // the storage directory was deleted under the muxer
-	WriteFailed    bool // ... and a Write failed because of it
+	WriteFailed    bool // a Write returned an error (deleted directory, unparsable parameters, ...)
 	SlowTransfer   bool // Close was called while a slow client was stuck receiving a part
 	WriteRejected  bool // a Write was rejected for SegmentMaxSize; Close was called right after
 	// SecondClosePanicked: a repeated Close panicked (outside the statement; recorded as a label)
@@ -94,8 +94,10 @@ func RunC07(sc Script, plan ClosePlan, tmpBase string) *E2CloseResult {
 				res.WriteRejected = true // SegmentMaxSize: the script ends here, Close follows
 				break
 			}
-			if res.DirBroken && !strings.HasPrefix(err.Error(), "PANIC") {
-				res.WriteFailed = true // storage failure: expected; Close must still do its job
+			if !strings.HasPrefix(err.Error(), "PANIC") {
+				// a storage failure, an unparsable parameter set, a rejected time stamp: whatever made
+				// the Write fail, Close must still do its job
+				res.WriteFailed = true
 				break
 			}
 			res.Skip = "write failed: " + err.Error()
